@@ -223,20 +223,70 @@ func trunc(s string) string {
 	return s
 }
 
-func classifyGraphDiff(before, after *snapshot, hazards []string) string {
-	// a reference that became null
-	for i := 0; i < len(before.canon) && i < len(after.canon); i++ {
-		if before.canon[i] != after.canon[i] {
-			if strings.Count(after.canon[i], "null") > strings.Count(before.canon[i], "null") {
-				if len(hazards) > 0 {
-					return "object-dropped:" + hazards[0]
+// classifyGraphDiff names the failure class of a changed reachable graph. When references
+// dangle after the write that did not dangle before, the class says which kind of surviving
+// object holds them: an undecoded object stream member (copied verbatim by
+// writeLazyObjectStreamObject), the catalog, a page tree node, a page (entries the writer
+// does not list), or something else.
+func classifyGraphDiff(before, after *snapshot, dangAfter []int) string {
+	if len(dangAfter) == 0 {
+		return "graph-changed"
+	}
+	kinds := map[string]bool{}
+	for _, n := range dangAfter {
+		tok := "R" + vh.Int(int64(n))
+		for _, nr := range after.tv.nrs {
+			found := false
+			for _, t := range strings.Fields(after.tv.objs[nr]) {
+				if t == tok {
+					found = true
+					break
 				}
-				return "object-dropped"
 			}
-			break
+			if !found {
+				continue
+			}
+			w := before.tv.objs[nr]
+			switch {
+			case before.tv.lazy[nr]:
+				kinds["lazy"] = true
+			case nr == before.root:
+				kinds["catalog"] = true
+			case strings.Contains(w, "k54797065 /50616765 "):
+				kinds["page"] = true
+			case strings.Contains(w, "k54797065 /5061676573 "):
+				kinds["pages"] = true
+			default:
+				kinds["other"] = true
+			}
 		}
 	}
-	return "graph-changed"
+	if len(kinds) == 1 && kinds["lazy"] {
+		return "write-drops-objects-referenced-only-by-lazy-objstream-member"
+	}
+	for _, k := range []string{"catalog", "pages", "page"} {
+		if kinds[k] {
+			return "unlisted-entry-object-dropped:" + k
+		}
+	}
+	if kinds["lazy"] {
+		return "write-drops-objects-referenced-only-by-lazy-objstream-member"
+	}
+	return "object-dropped"
+}
+
+func minus(a, b []int) []int {
+	m := map[int]bool{}
+	for _, x := range b {
+		m[x] = true
+	}
+	var l []int
+	for _, x := range a {
+		if !m[x] {
+			l = append(l, x)
+		}
+	}
+	return l
 }
 
 type docCase struct {
@@ -307,19 +357,23 @@ func runDoc(r *vh.Run, dc docCase, configs []wconf) {
 		}
 		// ---- O
 		ok := true
+		dang := danglingRefs(after.tv, ctx2)
+		newDang := minus(dang, danglingRefs(before.tv, ctx1))
 		bc, ac := before.canon, after.canon
 		if before.info < 0 {
 			// a fresh info dict holds nothing but the three volatile entries
 			ac = stripFreshInfo(ac)
 		}
-		if strings.Join(bc, "\n") != strings.Join(ac, "\n") {
+		graphSame := strings.Join(bc, "\n") == strings.Join(ac, "\n")
+		if !graphSame {
 			ok = false
-			r.OracleFail(classifyGraphDiff(before, after, dc.hazards), input(c), firstDiff(bc, ac))
+			r.OracleFail(classifyGraphDiff(before, after, newDang), input(c), fmt.Sprintf("new dangling references %v; %s", newDang, firstDiff(bc, ac)))
 		}
 		if len(before.pages) != len(after.pages) {
 			ok = false
 			r.OracleFail("page-sequence-changed", input(c), fmt.Sprintf("%d pages before, %d after", len(before.pages), len(after.pages)))
-		} else {
+		} else if graphSame {
+			// (a changed graph is already reported; the page view would repeat it)
 			for i := range before.pages {
 				b, a := before.pages[i], after.pages[i]
 				attr := ""
@@ -339,11 +393,7 @@ func runDoc(r *vh.Run, dc docCase, configs []wconf) {
 				}
 				if attr != "" {
 					ok = false
-					cls := "page-attr-changed:" + attr
-					if attr == "other" && len(dc.hazards) > 0 {
-						cls = "object-dropped:" + dc.hazards[0]
-					}
-					r.OracleFail(cls, input(c), fmt.Sprintf("page %d: before=%s after=%s", i+1, trunc(fmt.Sprint(b)), trunc(fmt.Sprint(a))))
+					r.OracleFail("page-attr-changed:"+attr, input(c), fmt.Sprintf("page %d: before=%s after=%s", i+1, trunc(fmt.Sprint(b)), trunc(fmt.Sprint(a))))
 					break
 				}
 			}
@@ -353,7 +403,6 @@ func runDoc(r *vh.Run, dc docCase, configs []wconf) {
 		}
 		r.Count("config:" + c.name)
 		// ---- K
-		dang := danglingRefs(after.tv, ctx2)
 		text := after.tv.text(nil) + "|dangling=" + vh.Ints(dang)
 		if refConf == "" {
 			refConf, refText = c.name, text
